@@ -246,7 +246,10 @@ class HGen:
     """Generates one history and, alongside, what the value semantics says about columns, plus the shape flags the
     signatures of known findings are made of."""
 
-    def __init__(self, rnd, maxlen, add_if_absent=True):
+    def __init__(self, rnd, maxlen, add_if_absent=True, skip_own=False, user_only=False, tables_only=False):
+        # the T1 facts about session.sql / replace_id_value: a finding's shape is a candidate signature only while the
+        # source still has the defective shape
+        self.skip_own, self.user_only, self.tables_only = skip_own, user_only, tables_only
         self.r = rnd
         self.eg = EGen(rnd)
         self.maxlen = maxlen
@@ -419,6 +422,9 @@ class HGen:
                 b, oc = self.gen_sel_over(f, cols)
             ctes.append((nm, b))
             cte_srcs = [s for s in cte_srcs if s[0] != nm] + [(nm, oc)]
+            pref = [s for s in pref if s[0] != nm]      # from here on the name means the CTE
+            if not pref:
+                pref = list(cte_srcs)
         k = r.random()
         f1, c1, _ = self.pick_src(pref, cte_srcs * 3)
         if k < 0.45:
@@ -443,13 +449,13 @@ class HGen:
         refs = [n.lower() for _, b in q["ctes"] for n in sq_names(b)] + [n.lower() for n in sq_names(q["main"])]
         view_refs = [n for n in refs if n in self.views]
         real_view_refs = [n for n in view_refs if n not in cte_names]
-        if any(n in cte_names for n in view_refs):
+        if any(n in cte_names for n in view_refs) and not self.skip_own:
             cands.append(SIG_HIJACK)
         for n in real_view_refs:
             if any(c in self.views[n]["embedded"] for c in cte_names):
                 cands.append(SIG_CAPTURE)
         for n in real_view_refs:
-            if n in BASE["tables"] and n in self.views[n]["reads"]:
+            if n in BASE["tables"] and n in self.views[n]["reads"] and not self.user_only:
                 cands.append(SIG_SELFREF)
         for n in real_view_refs:
             if self.cache.get(n) and self.cache[n] != list(self.views[n]["cols"]):
@@ -524,7 +530,7 @@ class HGen:
             cands.append(SIG_DUPCTE)        # accepted only together with DuckDB's `Duplicate CTE name`
         aliases = [a.lower() for a in (([a for _, a in q["main"][3]] if q["main"][0] == "sel" and q["main"][3] else []) +
                                        ([a for _, a in q["main"][3]] + [a for _, _, a in q["main"][4]] if q["main"][0] == "agg" else []))]
-        if any(a in cte_names for a in aliases):
+        if any(a in cte_names for a in aliases) and not self.tables_only:
             cands.append(SIG_ALIAS)
         names_real = [n for n in refs if n not in cte_names and n not in self.views and n in BASE["tables"]]
         if self.cache and names_real and (unresolved(q["main"]) or any(unresolved(b, len(order) - k) for k, (_, b) in enumerate(q["ctes"]))):
@@ -709,8 +715,8 @@ CORPUS = [
 ]
 
 
-def corpus_history(desc, add_if_absent=True):
-    g = HGen(random.Random(0), 0, add_if_absent)
+def corpus_history(desc, add_if_absent=True, **flags):
+    g = HGen(random.Random(0), 0, add_if_absent, **flags)
     g.new()
     g.keys = ["v", "w", "u"]
     for d in desc:
@@ -825,16 +831,22 @@ def short(o):
 
 
 def run(ctx: core.Ctx):
+    # a finding recorded as fixed suppresses nothing, also when an older merged list still carries it as known
+    fixed = {k["signature"] for k in ctx.known if k.get("status") == "fixed"}
+    ctx.known = [k for k in ctx.known if not (k.get("status", "known") == "known" and k["signature"] in fixed)]
     # ---- T1
     try:
         text, facts = c13_facts.generate(core.REPO)
         ctx.gen("C13Facts", text, facts)
         t1_ok = True
         add_if_absent = bool(facts[0]["value"])
+        flags = {"skip_own": bool(facts[3]["value"]["skip_own"]), "user_only": bool(facts[3]["value"]["user_only"]),
+                 "tables_only": bool(facts[4]["value"])}
     except Exception as ex:
         ctx.broken("T1:c13_facts", f"{type(ex).__name__}: {ex}")
         t1_ok = False
         add_if_absent = True
+        flags = {}
         ctx.gen("C13Facts", open(core.VERIF + "/translate/c13_facts_pinned.v").read())
     # ---- proofs
     ctx.log("T1 done")
@@ -843,8 +855,8 @@ def run(ctx: core.Ctx):
     # ---- T3
     rnd = random.Random(ctx.seed)
     quick = ctx.tier == "quick"
-    g = HGen(rnd, 6 if quick else 9, add_if_absent)
-    hs = [corpus_history(d, add_if_absent) for d in CORPUS]
+    g = HGen(rnd, 6 if quick else 9, add_if_absent, **flags)
+    hs = [corpus_history(d, add_if_absent, **flags) for d in CORPUS]
     n_hist = 260 if quick else 2600
     seen = set()
     while len(hs) < n_hist + len(CORPUS):
